@@ -115,6 +115,13 @@ pub fn gen(prop: &str, tier: &str, seed: u64, out: &mut Vec<String>) {
                         let m = *r.pick(&[1u64, 7, 63, 64, 1000, 1023, 1024, 1025, 4097]);
                         out.push(format!("ob {b} {bs} {e}+t{m}"));
                     }
+                    // zero-rich contents (sparse files, zero padding): equal chunk groups at different offsets
+                    if size > 0 {
+                        for _ in 0..2 {
+                            let e = ENTRIES[r.below(ENTRIES.len() as u64) as usize];
+                            out.push(format!("ob const:0:{size} {bs} {e}"));
+                        }
+                    }
                     // `create` on a reader that is not at its start (a header was read, or an earlier `create` ran)
                     for e in ["sync-create-preIo", "sync-create-postIo"] {
                         let k = *r.pick(&[1u64, 8, 1024, size / 2, size.saturating_sub(1), size]);
